@@ -32,6 +32,10 @@ def handleWriteMon (s : H2V.Spec.WriteMon.St) (ws : List String) : Option (H2V.S
 def handleStateInv (ws : List String) : Option String :=
   match ws with
   | ["mon_st", role, rm, digest] => some (showV (H2V.Spec.StateInv.check (role == "server") rm.toNat? digest))
+  | ["mon_capwait", c0, c, wk] =>
+    match c0.toNat?, c.toNat? with
+    | some a, some b => some (showV (H2V.Spec.StateInv.capWait a b (wk == "1")))
+    | _, _ => none
   | ["mon_held", sid, held, digest] =>
     match sid.toNat?, held.toNat? with
     | some s, some h => some (showV (H2V.Spec.StateInv.heldCheck digest s h))
